@@ -1,5 +1,6 @@
 """C22 (partial) -- the probability printed with a sample accounts for every random draw (decision table of add_atom)."""
 import ast
+import re
 
 from ..index import AnalysisError, norm, walk_no_nested
 from ..astutil import dotted
@@ -213,6 +214,32 @@ def run(repo, col):
                            "happens before the evidence is grounded into the same sample, heads of a disjunction reached through evidence are drawn afresh and two heads can be true" % f2.qualname,
                            function=f2.qualname)
     col.floor("M7.finalisation_calls", ncall, 1)
+    # M9: facts fixed by propagated evidence are handed to the sampler with their weight replaced (1.0 / 0.0) and EVERYTHING ELSE of the atom node kept - the group in
+    # particular: add_atom closes the annotated disjunction of a fixed head only if it knows the group
+    col.rule("M9", "init_db: evidence-fixed facts keep the rest of the atom node (group)")
+    idb = mod.functions.get("init_db")
+    if idb is None:
+        raise AnalysisError("init_db missing")
+    loops9 = [lp for lp in ast.walk(idb.node) if isinstance(lp, ast.For) and "lookup_evidence" in norm(lp.iter)]
+    if len(loops9) != 1:
+        raise AnalysisError("init_db: loop over the propagated evidence not found")
+    n9 = 0
+    for q in dtable.extract_block(loops9[0].body, opaque_loops=True):
+        apps = [a_ for fn, a_, _ in q.calls if fn.endswith(".append")]
+        cd9 = dict((s_, t) for s_, t, _ in q.conds)
+        tv = [s_ for s_, t in cd9.items() if t and ("is_true(" in s_ or "is_false(" in s_)]
+        if not apps:
+            continue
+        n9 += 1
+        val = apps[0][0].replace(" ", "")
+        want_w = "1.0" if tv and "is_true(" in tv[0] else "0.0"
+        mm9 = re.match(r"^\((.+)\[0\],(1\.0|0\.0)\)\+(.+)\[2:\]$", val)
+        ok9 = mm9 is not None and mm9.group(1) == mm9.group(3) and mm9.group(2) == want_w
+        col.decide("M9", mod, loops9[0], ok9, "a fact fixed %s by the evidence keeps identifier and remaining fields, weight %s" % ("true" if want_w == "1.0" else "false", want_w),
+                   "init_db hands the sampler %s for a fact that propagated evidence fixed %s: the tuple must be (identifier, %s) + the remaining fields of the atom node (node[2:]); without "
+                   "the group the sampler treats an evidence-fixed head of an annotated disjunction as a plain fact, never closes its group and draws a second head of the same "
+                   "disjunction" % (apps[0][0][:60], "true" if want_w == "1.0" else "false", want_w), construct="init_db: evidence fact %s" % want_w, function="init_db")
+    col.floor("M9.evidence_fact_rows", n9, 2)
     # M8: evidence check on the propagated ground program: an annotated-disjunction atom the sampler did not draw takes its weight from the sampler's group record
     # (q_target.groups): remaining mass None = a sibling head was chosen = the atom is false
     col.rule("M8", "verify_evidence: unsampled disjunction atoms follow the sampler's group record")
